@@ -8,7 +8,7 @@
 set -u
 ID=$1; N=$2; DEMO=$3; DEST=$4; shift 4
 OUT=/tmp/seed-$ID-out
-WT=/var/tmp/confirm-wt
+WT=${CONFIRM_WT:-/var/tmp/confirm-wt}
 cd /verif || exit 3
 sh tools/confirm_seed.sh "$OUT/patch.diff" >/var/tmp/process-$ID-$N.confirm 2>&1
 CRC=$?
